@@ -7,11 +7,16 @@ from concurrent.futures import ProcessPoolExecutor
 from lib import common, play, stories
 
 LEVEL = "proof"
-THEOREM_MODULES = ["Proofs.C02"]
+THEOREM_MODULES = ["Proofs.C02", "Proofs.C02State"]
 REQUIRED_THEOREMS = [
     "Ink.C02.cmd_roundtrip", "Ink.C02.native_name_roundtrip", "Ink.C02.native_not_cmd", "Ink.C02.native_roundtrip",
     "Ink.C02.cmd_obj_roundtrip", "Ink.C02.simple_obj_roundtrip", "Ink.C02.string_roundtrip",
     "Ink.C02.int_dict_roundtrip", "Ink.C02.pushPop_roundtrip",
+    "Ink.C02.readObj_writeObj", "Ink.C02.readObj_writeObj_exact", "Ink.C02.restoredGlobals_eq",
+    "Ink.C02.readThread_writeThread", "Ink.C02.readCallStack_ok", "Ink.C02.readChoice_writeChoice",
+    "Ink.C02.readFlow_writeFlow", "Ink.C02.loadStateObj_ok", "Ink.C02.loadState_saveState",
+    "Ink.C02.loadState_saveState_exact", "Ink.C02.loadState_saveState_self", "Ink.C02.create_saveable",
+    "Ink.C02.saveableB_sound", "Ink.C02.exRoundTrip", "Ink.C02.nonfinite_float_not_loadable",
 ]
 RULE = ("a case = one story x one save point along a random history (after a line, at a choice point, at the end, "
         "inside tunnels / functions / threads, in a named flow, with lists and random seeds) x one random "
@@ -151,7 +156,8 @@ def one_case(job):
                                        "continuation_op": op, "differences": play.json_diff(cx, cy),
                                        "why": "the restored story behaves differently from the original"},
                                       {"kind": "lockstep", "op": op[0],
-                                       "where": (play.json_diff(cx, cy) or [["?"]])[0][0]}))
+                                       "where": (play.json_diff(cx, cy) or [["?"]])[0][0],
+                                       "probe": os.path.basename(story["ink"]) if story.get("probe") and story.get("ink") else ""}))
             break
     # tie: both sessions on the model
     for sess, tag in zip(sessions, "abc"):
@@ -168,7 +174,7 @@ def one_case(job):
 
 def run(ctx):
     quick = ctx.tier == "quick"
-    pool = stories.corpus_pool(ctx)
+    pool = stories.probe_pool(ctx, "c02") + stories.corpus_pool(ctx)
     for prof, n in (("core", 40 if quick else 600), ("lists", 12 if quick else 300), ("random", 8 if quick else 200),
                     ("flows", 30 if quick else 300), ("functions", 10 if quick else 200), ("externals", 6 if quick else 100)):
         pool += stories.generated_pool(ctx, prof, n)
